@@ -30,7 +30,7 @@ NoSub == [ok |-> FALSE, n_out |-> 0, olds |-> <<>>]
 Stats0 == [events |-> 0, subsets |-> 0, subsets_ok |-> 0, subsets_refused |-> 0, subsets_panicked |-> 0,
            with_pulled_in |-> 0, pulled_in |-> 0, order_as_model |-> 0, order_other |-> 0,
            glyphs |-> 0, outlines_compared |-> 0, outlines_nonempty |-> 0, source_without_outline |-> 0,
-           metrics_compared |-> 0, records_compared |-> 0, composite_records |-> 0,
+           bare_close_ignored |-> 0, metrics_compared |-> 0, records_compared |-> 0, composite_records |-> 0,
            kind_glyf |-> 0, kind_cff |-> 0, kind_cid |-> 0, kind_cff2 |-> 0]
 
 \* ---- Subset events ------------------------------------------------------------------
@@ -60,6 +60,15 @@ SubsetBad(e) ==
 OrderAsModel(e) == Olds(GlyfRun(ObsTargets(e), Glyf0(e.a.ids)).recs) = e.o.olds
 
 \* ---- Glyph events --------------------------------------------------------------------
+\* Outlines are compared as command sequences.  A `close` that closes nothing (first command, or right
+\* after another close) draws nothing and is not part of the outline: allsorts' CFF2 visitor ends every
+\* glyph with one, also an empty glyph, its CFF visitor (which reads the converted glyph) does not.
+RECURSIVE DropBareClose(_, _, _)
+DropBareClose(c, i, acc) ==
+  IF i > Len(c) THEN acc
+  ELSE IF c[i][1] = 5 /\ (i = 1 \/ c[i - 1][1] = 5) THEN DropBareClose(c, i + 1, acc)
+  ELSE DropBareClose(c, i + 1, Append(acc, c[i]))
+SameOutline(a, b) == IF a = b THEN TRUE ELSE DropBareClose(a, 1, <<>>) = DropBareClose(b, 1, <<>>)
 RecordsEqual(a, b) == a.kind = b.kind /\ a.ends = b.ends /\ a.pts = b.pts /\ a.comps = b.comps
 Readable(r) == r.kind \in {"empty", "simple", "composite"}
 
@@ -68,16 +77,11 @@ GlyphBad(e) ==
   \* outline(out, n) = outline(src, o): the command sequences are equal
   \cup (IF ~e.o.src.ok THEN {}
         ELSE IF ~e.o.out.ok THEN {"outline-lost"}
-        ELSE IF e.o.src.cmds = e.o.out.cmds THEN {} ELSE {"outline"})
+        ELSE IF SameOutline(e.o.src.cmds, e.o.out.cmds) THEN {} ELSE {"outline"})
   \cup (IF e.a.metrics /\ e.o.adv[1] # e.o.adv[2] THEN {"advance"} ELSE {})
   \cup (IF e.a.metrics /\ e.o.lsb[1] # e.o.lsb[2] THEN {"lsb"} ELSE {})
   \* glyf: the records agree point by point; components agree in everything but the (renumbered) glyph id
   \cup (IF e.a.ind /\ Readable(e.o.isrc) /\ ~RecordsEqual(e.o.isrc, e.o.iout) THEN {"record"} ELSE {})
-
-RECURSIVE JoinSet(_)
-JoinSet(S) == IF S = {} THEN "" ELSE
-              LET m == CHOOSE x \in S : \A y \in S : Len(x) < Len(y) \/ (Len(x) = Len(y) /\ TRUE) \/ x = y IN
-              LET x == CHOOSE z \in S : TRUE IN x \o (IF S \ {x} = {} THEN "" ELSE "+" \o JoinSet(S \ {x}))
 
 FirstN(s, k) == SubSeq(s, 1, IF Len(s) < k THEN Len(s) ELSE k)
 FirstDiff(a, b) == LET m == IF Len(a) < Len(b) THEN Len(a) ELSE Len(b)
@@ -105,6 +109,7 @@ Bump(s, e) ==
               !.outlines_compared = @ + (IF both THEN 1 ELSE 0),
               !.outlines_nonempty = @ + (IF both /\ e.o.src.cmds # <<>> THEN 1 ELSE 0),
               !.source_without_outline = @ + (IF e.o.src.ok THEN 0 ELSE 1),
+              !.bare_close_ignored = @ + (IF both /\ e.o.src.cmds # e.o.out.cmds /\ SameOutline(e.o.src.cmds, e.o.out.cmds) THEN 1 ELSE 0),
               !.metrics_compared = @ + (IF e.a.metrics THEN 1 ELSE 0),
               !.records_compared = @ + (IF e.a.ind /\ Readable(e.o.isrc) THEN 1 ELSE 0),
               !.composite_records = @ + (IF e.a.ind /\ e.o.isrc.kind = "composite" THEN 1 ELSE 0),
@@ -114,7 +119,8 @@ Bump(s, e) ==
               !.kind_cff2 = @ + (IF e.a.kind = "cff2" THEN 1 ELSE 0)]
   ELSE [s EXCEPT !.events = @ + 1]
 
-SetSeq(S) == LET RECURSIVE F(_) F(T) == IF T = {} THEN <<>> ELSE LET x == CHOOSE z \in T : TRUE IN <<x>> \o F(T \ {x}) IN F(S)
+RECURSIVE SetSeq(_)
+SetSeq(S) == IF S = {} THEN <<>> ELSE LET x == CHOOSE z \in S : TRUE IN <<x>> \o SetSeq(S \ {x})
 
 Report(e, bad) ==
   IF e.ev = "Subset"
